@@ -11,6 +11,7 @@ from .._coo.common import linear_loc
 from .._coo.core import COO
 from .._sparse_array import SparseArray
 from .._utils import (
+    _index_array,
     _zero_of_dtype,
     can_store,
     check_compressed_axes,
@@ -171,6 +172,7 @@ class GCXS(SparseArray, NDArrayOperatorsMixin):
             compressed_axes = None
 
         self.data, self.indices, self.indptr = arg
+        self.indices, self.indptr = _index_array(self.indices), _index_array(self.indptr)
 
         if self.data.ndim != 1:
             raise ValueError("data must be a scalar or 1-dimensional.")
